@@ -123,12 +123,26 @@ def rule_isolate(chk, bp):
            "build_pipeline uses the shared &ir::Module other than by cloning it (lines %s): per-pipeline processing can leak into other pipelines"
            % sorted({v.get("ln") for v in other}), where(bp))
     # select_pipeline / assign_api_bindings / exporters on the clone chain
+    clone_vars = set()
+    for s in F.walk(bp["thir"]):
+        if s.get("k") == "LetStmt" and "init" in s and s["pat"].get("k") == "Bind":
+            if any(short(c.get("fn") or "") == "clone" and any(v["id"] == pid for v in F.exprs(c, "Var")) for c in F.exprs(s["init"], "Call")):
+                clone_vars.add(s["pat"]["id"])
+    grew = True
+    while grew:          # values derived from the clone (`let ir = ir.select_pipeline(..)`, `let ir = ir.assign_api_bindings(..)`)
+        grew = False
+        for s in F.walk(bp["thir"]):
+            if s.get("k") == "LetStmt" and "init" in s and s["pat"].get("k") == "Bind" and s["pat"]["id"] not in clone_vars:
+                vs = {v["id"] for v in F.exprs(s["init"], "Var")}
+                if vs & clone_vars and pid not in vs and "Module" in s["pat"].get("ty", ""):
+                    clone_vars.add(s["pat"]["id"])
+                    grew = True
     for name in ("select_pipeline", "assign_api_bindings", "export_to_hlsl", "export_to_msl"):
         cs = [c for c in F.exprs(bp["thir"], "Call") if short(c.get("fn") or "") == name]
         ok = bool(cs)
         for c in cs:
             v = F.leftmost_var(c["args"][0])
-            ok = ok and v is not None and v["id"] != pid and v.get("name") == "ir"
+            ok = ok and v is not None and v["id"] != pid and v["id"] in clone_vars
         chk.ob("C17.isolate/%s-on-clone" % name, ok, "%s runs on the per-pipeline clone" % name if ok else
                "%s is not applied to the per-pipeline clone" % name, where(bp))
     rule_selected_only(chk)
@@ -139,7 +153,7 @@ def rule_isolate(chk, bp):
             sel = p["pat"]["id"]
     ok_gps = False
     for s in F.walk(bp["thir"]):
-        if s.get("k") == "LetStmt" and s["pat"].get("k") == "Bind" and s["pat"].get("name") == "graphics_pipeline_state" and "init" in s:
+        if s.get("k") == "LetStmt" and s["pat"].get("k") == "Bind" and "init" in s and "GraphicsPipelineState" in s["pat"].get("ty", ""):
             flds = [x for x in F.exprs(s["init"], "Field") if x["name"] == "graphics_pipeline_state"]
             lets = [x for x in F.walk(s["init"]) if x.get("k") == "Let"]
             srcs = {F.leftmost_var(x["e"])["id"] for x in lets if F.leftmost_var(x["e"])}
